@@ -71,7 +71,8 @@ Definition agree (c : case) : bool :=
       res_eqb sval_eqb x result && (length d - length (rdata r') =? consumed) &&
       (match x with Panic => true | _ => alloc_ok alloc cost end)
   | CWrite pre o result =>
-      res_eqb bytes_eqb (match wop_run o (mkB pre (length pre)) with Ok b => Ok (bbuf b) | Err e => Err e | Panic => Panic end) result
+      res_eqb bytes_eqb (match wop_run o (mkB pre (length pre)) with Ok b => Ok (bbuf (bb_write b [238%N])) | Err e => Err e | Panic => Panic end) result
+      (* the harness writes one sentinel byte after the helper returns: the final write position is observed too *)
   | COMap kk vk input result alloc =>
       let '(x, cost) := om_decode kk vk input in
       res_eqb (fun a b => list_eqb pairZ_eqb (fst a) (fst b) && (snd a =? snd b)) x result && alloc_ok alloc cost
